@@ -20,11 +20,14 @@ def main():
         if r.returncode != 0:
             print("patch does not apply:", r.stdout)
             return 2
-    env = dict(os.environ, VERIF_REPO=WT, VERIF_BUILD=VB)
+    # private copy of the Lean project: files regenerated from the changed tree stay out of /verif/lean
+    os.makedirs(VB, exist_ok=True)
+    sh("rsync -a --delete %s/lean/ %s/lean/" % (V, VB))
+    env = dict(os.environ, VERIF_REPO=WT, VERIF_BUILD=VB, VERIF_LEAN=VB + "/lean")
     for c in checks:
         r = subprocess.run(["./check", c], cwd=V, env=env, stdout=subprocess.PIPE, stderr=subprocess.STDOUT, text=True)
         lines = [l for l in r.stdout.split("\n") if l.startswith("VIOLATION") or l.startswith("KNOWN") or " quick:" in l or "ERROR" in l]
-        print("== %s on %s: exit %d" % (c, name, r.returncode))
+        print("== %s on %s: exit %d" % (c, name, r.returncode), flush=True)
         for l in lines[:6]:
             print("   " + l[:220])
     sh("git -C %s checkout -- ." % WT)
